@@ -67,7 +67,8 @@ def main():
             meta["confirmed"]["suite_passes_with_change"] = meta["confirmed"]["suite_passes_with_change"] and okf
         shutil.copy(demo, os.path.join(wt, "tests", "seed_demo.rs"))
         rc1, o1 = sh("cargo test --offline --test seed_demo%s 2>&1 | tail -25" % feat, cwd=wt, env=env)
-        fails_with = "test result: FAILED" in o1 or "panicked" in o1 or "could not compile" in o1 or "error[E" in o1
+        fails_with = ("test result: FAILED" in o1 or "panicked" in o1 or "could not compile" in o1 or "error[E" in o1
+                      or "has overflowed its stack" in o1 or "SIGABRT" in o1 or "signal: 6" in o1 or "SIGSEGV" in o1)
         meta["confirmed"]["demo_fails_with_change"] = fails_with
         sh("git checkout -- src", cwd=wt)
         rc2, o2 = sh("cargo test --offline --test seed_demo%s 2>&1 | tail -8" % feat, cwd=wt, env=env)
